@@ -408,3 +408,16 @@ Proof.
     + exfalso. apply (proj2 (pair_defined_iff h1 h2 s st m TS TC t1 t2) PB). exact P.
   - apply (pair_defined_iff h1 h2 s st m TS TC).
 Qed.
+
+(** the default of [nth] in [unpair_tree] is never reached on a well-formed derivation *)
+Lemma unpair_index_in_range : forall h1 h2 g12 X k cs,
+  conjoin_hrgs_model h1 h2 = Ok g12 -> wf_dtree g12 X (DNode k cs) ->
+  k < length (conj_prov h1 h2).
+Proof.
+  intros h1 h2 g12 X k cs H W. unfold conjoin_hrgs_model in H. apply bind_ok in H.
+  destruct H as [x [HC E]]. injection E as <-. unfold conj_prov. rewrite HC.
+  inversion W as [? ? r ? Hk _ _]; subst. rewrite all_rules_untag in Hk.
+  assert (N : nth_error (map fst (tagged_rules (snd x))) k <> None) by congruence.
+  apply nth_error_Some in N. rewrite map_length in N.
+  rewrite prov_of_tagged, map_length. exact N.
+Qed.
